@@ -70,11 +70,14 @@ def trace_functions_guard(fn):
             co = frame.f_code
             if co.co_filename.startswith('/repo/'):
                 seen.add(os.path.basename(co.co_filename)[:-3] + '.' + co.co_qualname)
+    import threading
+    threading._verif_profile = prof      # stub worker threads install it too (shims.env.ShimThread)
     sys.setprofile(prof)
     try:
         fn()
     finally:
         sys.setprofile(None)
+        threading._verif_profile = None
         _LAST_FUNCS.clear()
         _LAST_FUNCS.update(seen)
     return seen
